@@ -34,4 +34,10 @@ def strBytes (s : String) : Bytes := s.toUTF8.toList
 
 def boolStr (b : Bool) : String := if b then "1" else "0"
 
+/-- Result of one case: the model's canonical output and, where a decidable spec predicate is
+available, its verdict on the *implementation's* output (`none` = not judged here). -/
+structure Verdict where
+  model : String
+  spec : Option Bool := none
+
 end Humphrey.Driver
